@@ -419,11 +419,14 @@ func (loader *Loader) resolveComponent(doc *T, ref string, path *url.URL, resolv
 	}
 	var cursor any
 	if cursor, err = drill(componentDoc); err != nil {
-		if path == nil {
+		if componentPath == nil {
 			return nil, nil, err
 		}
 		var err2 error
-		data, err2 := loader.readURL(path)
+		// Look the fragment up in the raw content of the document the
+		// reference points into (for a same-document reference that is the
+		// current document).
+		data, err2 := loader.readURL(componentPath)
 		if err2 != nil {
 			return nil, nil, err
 		}
